@@ -59,7 +59,7 @@ func runC19(c *eng.Ctx, tier string) {
 	// document is the whole active set (C13's rule), nothing is filtered out
 	includeOnly(c, "R-C19-7", func(sc *eng.Ctx) { runC13(sc, "quick") }, "R-C13-2")
 	l := moduleLocks(c)
-	poll := p.Method(setecPkg, "Store", "poll")
+	poll := anchor(p, setecPkg, "(*Store).poll")
 	applyFns := applyFuncs(c)
 	isApply := func(f *ssa.Function) bool {
 		for _, g := range applyFns {
@@ -237,7 +237,7 @@ func runC19(c *eng.Ctx, tier string) {
 		c.Check(okVal, "R-C19-2", pred, r.Pos(), site+" [comparison]", "answers timeNow().Sub(entry's last access) > expiryAge (strictly longer than the age)", detail)
 	}
 	// zero stamp reads as zero time (so a cache without stamps is treated as very old, not as "now")
-	if lat := p.Method(setecPkg, "cachedSecret", "lastAccessTime"); lat != nil {
+	if lat := anchor(p, setecPkg, "(*cachedSecret).lastAccessTime"); lat != nil {
 		ok := false
 		for _, r := range eng.Returns(lat) {
 			rv := eng.RetVals(r)
